@@ -235,7 +235,14 @@ class PathEnum:
                                 st['env'][(cc.id, i + 1)] = a
                     else:
                         val = simplify(('call', nid, d.get('fn', '?'), args), d)
-                        st['effects'].append(('call', nid, d.get('fn', '?'), args, d))
+                        # pointee values of by-reference arguments that point at plain locals (receivers)
+                        pointees = []
+                        for a in args:
+                            pv = None
+                            if a[0] == 'ref' and a[1][1][0] == 'local' and not a[1][2]:
+                                pv = self.load(st, a[1])
+                            pointees.append(pv)
+                        st['effects'].append(('call', nid, d.get('fn', '?'), args, d, tuple(pointees)))
                         if d.get('target') is None:
                             p = self._finish(st, nid, None)
                             p.panicked = True
@@ -418,6 +425,14 @@ class Folder:
             return r
         if k in ('idcall', 'conv'):
             return self.ev(t[2])
+        if k in ('sizeof', 'alignof'):
+            ty = t[1]
+            if ty in self.generic:
+                return self.generic[ty]
+            lay = type_layout(ty)
+            if lay is None:
+                return self.leaf(t)
+            return lay[0] if k == 'sizeof' else lay[1]
         if k == 'bin':
             return self.binop(t)
         if k == 'un':
@@ -449,6 +464,17 @@ class Folder:
             return 0 if _wrap(r, tb[0], tb[1]) == r else 1
         if k == 'call':
             return self.call(t)
+        if k == 'tryconv':
+            return self.ev(t[2])
+        if k == 'field' and t[1][0] == 'downcast' and t[1][1][0] == 'tryconv' and t[2] == '0':
+            return self.ev(t[1][1][2])
+        if k == 'discr' and t[1][0] == 'tryconv':
+            tb = ty_bits(t[1][1])
+            v = self.ev(t[1][2])
+            if tb is None:
+                raise Unfoldable('tryconv to ' + t[1][1])
+            lo, hi = (-(1 << (tb[0] - 1)), (1 << (tb[0] - 1)) - 1) if tb[1] else (0, (1 << tb[0]) - 1)
+            return 0 if lo <= v <= hi else 1
         if k == 'field':
             v = t[1]
             if v[0] == 'agg' and len(v[2]) == 1 and t[2] in ('0', 'bits'):
